@@ -153,24 +153,22 @@ mod proofs {
 #[cfg(all(test, not(kani)))]
 mod replay {
     use super::*;
+    fn dispatch(name: &str, r: &mut RSrc) -> bool {
+        match name {
+            "lerp_params" => h_lerp_params(r),
+            "invert_range" => h_invert_range(r),
+            "chroma_round" => h_chroma_round(r),
+            "median" => h_median(r),
+            "add" => h_add(r),
+            "mv_wrappers" => h_mv_wrappers(r),
+            "intradc" => h_intradc(r),
+            "type_preds" => h_type_preds(r),
+            _ => return false,
+        }
+        true
+    }
     #[test]
     fn verif_replay() {
-        let name = std::env::var("VERIF_HARNESS").unwrap_or_default();
-        let mut r = RSrc::from_env();
-        match name.as_str() {
-            "lerp_params" => h_lerp_params(&mut r),
-            "invert_range" => h_invert_range(&mut r),
-            "chroma_round" => h_chroma_round(&mut r),
-            "median" => h_median(&mut r),
-            "add" => h_add(&mut r),
-            "mv_wrappers" => h_mv_wrappers(&mut r),
-            "intradc" => h_intradc(&mut r),
-            "type_preds" => h_type_preds(&mut r),
-            _ => {
-                println!("REPLAY-UNKNOWN harness={}", name);
-                return;
-            }
-        }
-        r.report(&name);
+        verif_replay_main(dispatch)
     }
 }
